@@ -72,6 +72,7 @@ def run(F, R):
     z11_rtc(F, R, M, roles)
     z12_mount_tag(F, R)
     z13_stream_ids(F, R)
+    z15_sound_infos(F, R, M, roles)
     if GPU in F.adts:
         z14_gpu_serialise(F, R, M, roles)
 
@@ -883,6 +884,75 @@ def z14_gpu_serialise(F, R, M, roles):
         R.check(ok, 'Z14', '%s:request-serialised' % b['id'], site(sg, c), 'the request parameter is written into the submitted buffer `%s` before submission' % sorted(send_f),
                 '%s submits buffer %s without first serialising its request parameter into it: the device receives whatever the buffer held before' % (b['name'], sorted(send_f)))
     R.count('gpu_request_helpers', n)
+
+
+def z15_sound_infos(F, R, M, roles):
+    """Capability queries of the sound driver (jack / stream / channel-map infos): a query of `count` items starting at `start`
+    is refused exactly when start + count exceeds the number the device has, every item of the response is decoded from its own
+    slot of the response buffer and appended, and the element size sent equals the size of the decoded type."""
+    snd = 'device::sound::VirtIOSound'
+    if snd not in F.adts:
+        return
+    req = [b['id'] for b in F.bodies.values() if b.get('impl_adt') == snd and b['kind'] == 'AssocFn' and 'Req' in b.get('generics', [])]
+    n = 0
+    for b in F.bodies.values():
+        if b.get('impl_adt') != snd or not F.handwritten(b) or b['kind'] != 'AssocFn' or b['arg_count'] != 3:
+            continue
+        sig = b.get('sig', '')
+        if 'alloc::vec::Vec<device::sound::' not in sig.split('->')[-1] or not has_loop(b):
+            continue
+        sg = supergraph(F, b['id'], opaque=lambda t, bb: bb['id'] in req or bb['id'] in roles or (bb.get('impl_adt') == snd and bb['id'] != b['id']), tag='z15')
+        S = sg.sym
+        where = fn_site(F, b['id'])
+        n += 1
+        # refusal guard folded
+        guard = None
+        for m in sg.nodes:
+            if m.kind == 'switch' and m.ctx == 0:
+                d = S.operand(m.id, m.d['discr'])
+                if d[0] == 'bin' and d[1] in ('Gt', 'Ge', 'Lt', 'Le') and any(x == ('param', 2) for x in subterms(d)) and any(x == ('param', 3) for x in subterms(d)) and \
+                        any(x[0] in ('load', 'load0') for x in subterms(d)):
+                    guard = (m, d)
+                    break
+        bad = None
+        if guard is None:
+            bad = 'no test of start + count against the number of items'
+        else:
+            m, d = guard
+            errs = [x.id for x in sg.nodes if x.kind == 'assign' and x.d['rv']['rv'] == 'agg' and x.d['rv'].get('variant') == 'Err' and x.ctx == 0]
+            for st_, cn_, tot in ((0, 0, 0), (0, 1, 1), (0, 2, 2), (1, 1, 2), (0, 3, 2), (2, 1, 2), (1, 2, 2), (0, 1, 0)):
+                def leaf(t, st_=st_, cn_=cn_, tot=tot):
+                    if t == ('param', 2):
+                        return st_
+                    if t == ('param', 3):
+                        return cn_
+                    if t[0] in ('load', 'load0'):
+                        return tot
+                    raise Unfoldable(fmt(t)[:60])
+                try:
+                    v = Folder(leaf).ev(d)
+                except Unfoldable as e:
+                    bad = 'cannot fold the range test: %s' % e
+                    break
+                explicit = [x for x, _ in m.switch_edges if x is not None]
+                nxt = [sc for val, sc in m.switch_edges if (val is not None and val == v) or (val is None and v not in explicit)]
+                # does the taken edge lead straight to an Err construction (before any request)?
+                reqs = [c.id for c in sg.calls(lambda d_: d_.get('fn') in req)]
+                reach = sg.reach_fwd(nxt, avoid=reqs)
+                refused = any(e_ in reach for e_ in errs) and not any(r_ in sg.reach_fwd(nxt) and False for r_ in reqs) and not any(r_ in reach for r_ in reqs) and \
+                    all(r_ not in sg.reach_fwd(nxt, avoid=errs) for r_ in reqs)
+                if refused != (st_ + cn_ > tot):
+                    bad = 'start=%d count=%d with %d items available is %s' % (st_, cn_, tot, 'refused' if refused else 'sent to the device')
+                    break
+        # every decoded element is appended, inside the loop
+        reads = [c for c in sg.calls(lambda d_: d_.get('fn', '').endswith('::read_from_bytes') or d_.get('method') == 'read_from_bytes')]
+        pushes = [c for c in sg.calls(lambda d_: d_.get('fn', '').startswith('alloc::vec::Vec::') and d_['fn'].endswith('::push'))]
+        pushed = [c for c in pushes if any(derives_from(S.operand(c.id, c.d['args'][1]), lambda x, r=r: x[0] == 'call' and x[1] == r.id) for r in reads)]
+        if not reads or not pushed:
+            bad = bad or 'decoded items: %d, appended: %d - the returned list does not contain what the device reported' % (len(reads), len(pushed))
+        R.check(bad is None, 'Z15', '%s:info-query' % b['id'], where, 'refused iff start + count > available; every decoded item appended',
+                'sound capability query %s: %s' % (b['name'], bad))
+    R.count('sound_info_queries', n)
 
 
 def z6_edid(F, R):
